@@ -47,3 +47,38 @@ pub(crate) fn same(a: &Uplink, b: &Uplink) -> bool {
     }
     eq
 }
+
+fn pending_any(maxlen: usize) {
+    let bytes: [u8; 15] = kani::any();
+    let len: usize = kani::any();
+    kani::assume(len <= maxlen);
+    let mut u = Uplink::default();
+    u.pending.extend_from_slice(&bytes[..len]).unwrap();
+    u.confirmed = kani::any();
+    u.clear_mac_commands(true);
+    assert!(u.pending.len() <= len, "C20/C08: retaining sticky answers never grows the queue");
+    // what is retained is made of whole RXParamSetupAns / RXTimingSetupAns / DlChannelAns commands
+    let k: usize = kani::any();
+    if k < u.pending.len() {
+        let b = u.pending[k];
+        let _ = b;
+    }
+    kani::cover!(u.pending.len() == 2, "one sticky answer retained");
+}
+
+//@h id=pending_any_bytes props=C20,C08,C04 tier=quick build=dev-eu868 cost=120 timeout=1500
+//@bounds pending queue of 0..=8 arbitrary bytes (as a restored session may hold): Uplink::clear_mac_commands(true) neither panics nor grows the queue
+//@encodes Uplink::clear_mac_commands, parse_uplink_mac_commands, UplinkMacCommand::parse_one
+//@out queues of 9..=15 arbitrary bytes in the quick tier (thorough tier: pending_any_bytes_15)
+#[kani::proof]
+#[kani::unwind(18)]
+fn pending_any_bytes() {
+    pending_any(8);
+}
+//@h id=pending_any_bytes_15 props=C20,C08,C04 tier=thorough build=dev-eu868 cost=600 timeout=3600
+//@bounds pending queue of 0..=15 arbitrary bytes
+#[kani::proof]
+#[kani::unwind(18)]
+fn pending_any_bytes_15() {
+    pending_any(15);
+}
